@@ -349,6 +349,8 @@ func genParseFloat(dir string) {
 		}
 		addPf(str)
 	}
+	// spread the expensive cases (halfway strings with up to 1100 digits) over all shards
+	rng.Shuffle(len(cs), func(i, j int) { cs[i], cs[j] = cs[j], cs[i] })
 	writeShards(dir, "pf", pfCheck, cs)
 
 	// documented deviations: Go accepts these, the model answers PFSyntax
